@@ -12,7 +12,7 @@ use pdf::primitive::Primitive;
 use rayon::prelude::*;
 use serde_json::{json, Value};
 
-pub const DANGLING: &[(&str, u64)] = &[("free-entry", 47), ("beyond-size", 5000), ("gap-in-table", 48), ("freed-by-update-generation-kept", 46), ("freed-by-update", 45), ("listed-by-the-section-but-equal-to-size", 55)];
+pub const DANGLING: &[(&str, u64)] = &[("free-entry", 47), ("beyond-size", 5000), ("gap-in-table", 48), ("freed-by-update-generation-kept", 46), ("freed-by-update", 45), ("listed-by-the-section-but-equal-to-size", 55), ("listed-by-both-sections-but-above-size", 57)];
 
 /// assemble the rich document so that object 47 is a free entry, 48 lies in a gap of the table, 49 defines the end
 fn assemble(objs: &[(u64, Val)], stream_xref: bool) -> Vec<u8> {
@@ -29,6 +29,7 @@ fn assemble(objs: &[(u64, Val)], stream_xref: bool) -> Vec<u8> {
     // object 55 is written and listed by the cross-reference section, but /Size says 55: a number that is not below /Size
     // is not an object of the file, whatever the section lists
     fb.add(55, 0, &Val::dict(vec![("BeyondSize", Val::Int(55))]));
+    fb.add(57, 0, &Val::dict(vec![("BeyondSize", Val::Int(57))]));
     fb.size = 55;
     let extra = [("Root", Val::r(1)), ("Info", Val::r(37)), ("ID", Val::Array(vec![Val::str("0123456789abcdef"), Val::str("0123456789abcdef")]))];
     if stream_xref {
@@ -38,6 +39,9 @@ fn assemble(objs: &[(u64, Val)], stream_xref: bool) -> Vec<u8> {
     }
     fb.free(45, 1);
     fb.free(46, 0);
+    // the update writes the two objects beyond /Size again: its own section lists them too
+    fb.add(55, 0, &Val::dict(vec![("BeyondSize", Val::Int(55)), ("Revision", Val::Int(2))]));
+    fb.add(57, 0, &Val::dict(vec![("BeyondSize", Val::Int(57)), ("Revision", Val::Int(2))]));
     fb.size = 55;
     if stream_xref {
         fb.finish_stream(&extra, &XrefStreamOpts::new(51));
@@ -227,22 +231,48 @@ fn observe(bytes: &[u8], cfg: Config) -> std::result::Result<Vec<(String, String
     }
 }
 
-fn doc_level(tally: &mut Tally) {
+fn doc_level(tally: &mut Tally, pairs: bool) {
     let base = rich_objects();
     let sites = sites();
-    let jobs: Vec<(usize, usize, bool, usize)> = (0..sites.len()).flat_map(|s| (0..DANGLING.len()).flat_map(move |d| [false, true].into_iter().flat_map(move |sx| (0..4).map(move |c| (s, d, sx, c))))).collect();
+    // second site of a pair: usize::MAX = none. pairs: two optional entries dangle at once (same class of missing object)
+    let mut site_sets: Vec<(usize, usize)> = (0..sites.len()).map(|s| (s, usize::MAX)).collect();
+    if pairs {
+        site_sets.clear();
+        for a in 0..sites.len() {
+            for b in a + 1..sites.len() {
+                if sites[a].required || sites[b].required || sites[a].raw || sites[b].raw || (sites[a].indirect && sites[b].indirect) {
+                    continue;
+                }
+                // an entry and something inside it, or the same entry twice, is one site
+                if sites[a].obj == sites[b].obj && (sites[a].path.starts_with(&sites[b].path) || sites[b].path.starts_with(&sites[a].path)) {
+                    continue;
+                }
+                site_sets.push((a, b));
+            }
+        }
+    }
+    let jobs: Vec<(usize, usize, usize, bool, usize)> = site_sets.iter().flat_map(|&(s, s2)| (0..DANGLING.len()).flat_map(move |d| [false, true].into_iter().flat_map(move |sx| (0..4).map(move |c| (s, s2, d, sx, c))))).filter(|&(_, s2, _, sx, c)| s2 == usize::MAX || (!sx && c % 2 == 0) || (sx && c == 1)).collect();
     let parts: Vec<Tally> = jobs
         .par_iter()
-        .map(|&(si, di, stream_xref, ci)| {
+        .map(|&(si, si2, di, stream_xref, ci)| {
             let mut t = Tally::new();
             let site = &sites[si];
             let cfg = CONFIGS[ci];
             let (dname, dnr) = DANGLING[di];
-            let Some(with_ref) = mutate(&base, site, Some(dnr)) else {
+            let Some(mut with_ref) = mutate(&base, site, Some(dnr)) else {
                 t.notes.push(format!("site {} not applicable to the base document", site.what));
                 return t;
             };
-            let removed = mutate(&base, site, None).unwrap();
+            let mut removed = mutate(&base, site, None).unwrap();
+            if si2 != usize::MAX {
+                match (mutate(&with_ref, &sites[si2], Some(dnr)), mutate(&removed, &sites[si2], None)) {
+                    (Some(a), Some(b)) => {
+                        with_ref = a;
+                        removed = b;
+                    }
+                    _ => return t,
+                }
+            }
             let (b1, b0) = (assemble(&with_ref, stream_xref), assemble(&removed, stream_xref));
             t.evaluations += 1;
             t.distinct.insert(fnv_mix(fnv(&b1), ci as u64));
@@ -290,6 +320,9 @@ fn doc_level(tally: &mut Tally) {
                 Err((kind, detail)) => {
                     t.outcome(&kind);
                     let mut devs = vec![format!("site={}", site.what), format!("dangling={}", dname)];
+                    if si2 != usize::MAX {
+                        devs.push(format!("site={}", sites[si2].what));
+                    }
                     if cfg.tolerant {
                         devs.push("mode=tolerant".into());
                     }
@@ -299,7 +332,7 @@ fn doc_level(tally: &mut Tally) {
                     if stream_xref {
                         devs.push("xref=stream".into());
                     }
-                    t.fail("c18.document", &kind, devs, format!("{} -> {} ({}) [{}]: {}", site.what, dnr, dname, cfg.name(), detail), json!({"engine": "c18.document", "site": si, "dangling": di, "stream_xref": stream_xref, "config": ci}));
+                    t.fail("c18.document", &kind, devs, format!("{} -> {} ({}) [{}]: {}", site.what, dnr, dname, cfg.name(), detail), json!({"engine": "c18.document", "site": si, "site2": if si2 == usize::MAX { -1 } else { si2 as i64 }, "dangling": di, "stream_xref": stream_xref, "config": ci}));
                 }
             }
             t
@@ -432,8 +465,11 @@ fn model_level(tally: &mut Tally) {
     }
 }
 
-pub fn run(_tier: Tier, _seed: u64, tally: &mut Tally) -> CheckMeta {
-    doc_level(tally);
+pub fn run(tier: Tier, _seed: u64, tally: &mut Tally) -> CheckMeta {
+    doc_level(tally, false);
+    if tier.thorough() {
+        doc_level(tally, true);
+    }
     model_level(tally);
     tally.states = tally.evaluations;
     tally.transitions = tally.evaluations;
@@ -447,7 +483,7 @@ pub fn run(_tier: Tier, _seed: u64, tally: &mut Tally) -> CheckMeta {
     CheckMeta {
         prop: "C18",
         level: "model_checking",
-        rule: format!("document level: {} entry sites of the rich document (optional entries of catalog, page tree, pages, resources and their dictionary values, fonts, descriptors, images, forms, trees, outlines, annotations, fields, info; array elements, with the array written in place or stored as an indirect object of its own; and 12 required entries) x {{free entry, number beyond /Size, number in a gap of the table, object freed by an incremental update with the generation incremented / kept, number equal to /Size that the section nevertheless lists}} x {{classic table, xref stream}} x {{strict, tolerant}} x {{cached, uncached}}: the complete walk must equal the walk of the same document with the entry removed (required entries: no panic). Model level: each of {} fields of the C15 model table pointed at a dangling number inside a real file, typed load compared with the load of the dictionary without the field. Full product, distinct by (site, class, configuration).", n_sites, n_fields),
+        rule: format!("document level: {} entry sites of the rich document (optional entries of catalog, page tree, pages, resources and their dictionary values, fonts, descriptors, images, forms, trees, outlines, annotations, fields, info; array elements, with the array written in place or stored as an indirect object of its own; and 12 required entries) x {{free entry, number beyond /Size, number in a gap of the table, object freed by an incremental update with the generation incremented / kept, number equal to /Size and number above /Size that the sections nevertheless list}} x {{classic table, xref stream}} x {{strict, tolerant}} x {{cached, uncached}}: the complete walk must equal the walk of the same document with the entry removed (required entries: no panic). Thorough: every pair of optional sites dangling at once (same class; table: strict and tolerant uncached, stream: strict cached). Model level: each of {} fields of the C15 model table pointed at a dangling number inside a real file, typed load compared with the load of the dictionary without the field. Full product, distinct by (site, class, configuration).", n_sites, n_fields),
         assumptions: vec!["'treated as absent' is decided differentially against the document with the entry removed".into()],
         exhaustive: true,
         bounds: json!({"dangling_classes": DANGLING.len()}),
@@ -457,13 +493,13 @@ pub fn run(_tier: Tier, _seed: u64, tally: &mut Tally) -> CheckMeta {
 pub fn replay(case: &Value, tally: &mut Tally) {
     let mut t = Tally::new();
     match case["engine"].as_str().unwrap_or("") {
-        "c18.document" => doc_level(&mut t),
+        "c18.document" => doc_level(&mut t, case["site2"].as_i64().unwrap_or(-1) >= 0),
         _ => model_level(&mut t),
     }
     // replay = re-run the (small) engine and show the failures of the same site / model
     for f in t.all_failures() {
         let r = &f.replay;
-        let same = if case["engine"] == "c18.document" { r["site"] == case["site"] && r["dangling"] == case["dangling"] } else { r["model"] == case["model"] && r["field"] == case["field"] && r["dangling"] == case["dangling"] };
+        let same = if case["engine"] == "c18.document" { r["site"] == case["site"] && r["site2"].as_i64().unwrap_or(-1) == case["site2"].as_i64().unwrap_or(-1) && r["dangling"] == case["dangling"] } else { r["model"] == case["model"] && r["field"] == case["field"] && r["dangling"] == case["dangling"] };
         if same {
             println!("{} :: {}", f.signature(), f.detail);
             tally.add_failure(f.clone());
